@@ -28,6 +28,8 @@ DECIDED_R7 = ('Round 7: premises from the matcher (C01.c back-tracking copies, C
 DECIDED = DECIDED + ' ' + DECIDED_R7
 DECIDED_R8 = ('Round 8: the matcher gets the path with every enclosing slash removed; premises C01.c (look-back pop) and C11.c (named route is the mounted one).')
 DECIDED = DECIDED + ' ' + DECIDED_R8
+DECIDED_R9 = ('Round 9: premises C01.e (marker excluded from literal child selection) and C11.d (DATA with PARAMS) (a).')
+DECIDED = DECIDED + ' ' + DECIDED_R9
 NOT_DECIDED = 'match o build = identity over all runtime strings (regex semantics of user filters; float repr of exponent forms).'
 ASSUMPTIONS = ['str(int(x)) / str(float(x)) round-trip through int / float', 'pattern_out contains one marker character per wildcard']
 
